@@ -284,6 +284,27 @@ fn main() {
         dumps.emit(json!({"doc": id, "text": String::from_utf8_lossy(&text), "dump": d}));
         id += 1;
     }
+    // directed: plain keys (and plain values) of every length 1..=100, so that the `:` / the end of
+    // the scalar falls in every lane of a 16/32-byte classification chunk started at the scalar,
+    // with more than a chunk of input after it; top-level, nested and sequence-entry shapes
+    for klen in 1..=100usize {
+        let key = "k".repeat(klen);
+        let tail = "zz: 123456789012345678901234567890123456789\n";
+        for shape in 0..3 {
+            let text = match shape {
+                0 => format!("{key}: v\n{tail}"),
+                1 => format!("p:\n  {key}: v\n  {tail}"),
+                _ => format!("- {key}: v\n  {tail}- {key}\n"),
+            };
+            let d = dump(text.as_bytes());
+            if !d.starts_with("ERR") && !d.starts_with("PANIC") {
+                built += 1;
+            }
+            tr.emit(json!({"e": "idx", "cfg": cfg, "doc": id, "h": fnv(&d)}));
+            dumps.emit(json!({"doc": id, "text": text, "dump": d}));
+            id += 1;
+        }
+    }
     // arbitrary bytes
     let nsoup = args.u64("nsoup", 300);
     for _ in 0..nsoup {
